@@ -9,7 +9,7 @@ from ..world import diff
 
 ID = "C16"
 LEVEL = "exploration"
-QUICK_RUNS = 480
+QUICK_RUNS = 1920
 CHUNK = 10
 RULE = ("Same simulated runs as C15 (1-4 bandits, drawn data with arms absent from train or test, batch sizes that do and "
         "do not divide the test size, is_quick, chunk budget knob, seeded worker schedule and partitions); oracle: "
